@@ -4,9 +4,10 @@
        objects the framework itself creates (_handle, handler, _cast, errors_map),
        and the last-resort page in Ombott.wsgi.
    The template is Gen.error_template (error.html as render() consumes it), the
-   ombott escape chain is Gen.html_escape_chain.  Texts that the translator does
-   not read yet are pinned here (section "pinned texts") and are tied to the
-   source by the correspondence check.  No proofs in this file. *)
+   ombott escape chain is Gen.html_escape_chain, status lines, JSON content type
+   and the last-resort status line are Gen constants.  The remaining literal
+   texts of this file are proved equal to the translator's constants in
+   proofs/C20_pins.v (C20_texts_pinned).  No proofs in this file. *)
 From Coq Require Import String.
 From Verif Require Import lib.Base lib.Str lib.Html lib.PyRepr.
 From Verif Require gen.Gen.
@@ -15,11 +16,12 @@ Local Notation "$ s" := (lit s%string) (at level 0, only parsing).
 
 (* ---------------- pinned texts ---------------- *)
 
-(* response.py: _HTTP_STATUS_LINES[code] (http.client.responses) for the codes the framework uses *)
-Definition status_lines : list (Z * str) := Eval compute in
-  [(400%Z, $"400 Bad Request"); (404%Z, $"404 Not Found"); (405%Z, $"405 Method Not Allowed");
-   (413%Z, $"413 Request Entity Too Large"); (500%Z, $"500 Internal Server Error")].
+(* response.py: _HTTP_STATUS_LINES[code] (http.client.responses) for the codes the framework
+   uses, as the translator evaluated them *)
+Definition status_lines : list (Z * str) := Gen.status_lines.
 
+(* the literal texts below are proved equal to what the translator read from the source in
+   proofs/C20_pins.v (theorem C20_texts_pinned) *)
 Definition body_404 : str := Eval compute in $"Not Found".                       (* radirouter.py:316 *)
 Definition body_405 : str := Eval compute in $"Method not allowed.".             (* radirouter.py:323 *)
 Definition body_400_path : str := Eval compute in $"Invalid path string. Expected UTF-8". (* ombott.py:266 *)
@@ -27,7 +29,7 @@ Definition body_500_crash : str := Eval compute in $"Internal Server Error".    
 Definition body_500_unhandled : str := Eval compute in $"Unhandled exception".   (* ombott.py:357 *)
 Definition body_500_type_prefix : str := Eval compute in $"Unsupported response type: ". (* ombott.py:367 *)
 Definition body_500_loops : str := Eval compute in $"too many iterations".       (* ombott.py:308 *)
-Definition ctype_json : str := Eval compute in $"application/json".              (* ombott.py:229 *)
+Definition ctype_json : str := Gen.json_error_content_type.                       (* ombott.py:229 *)
 Definition accept_json : str := Eval compute in $"application/json".             (* props_mixin.py: is_json_requested *)
 Definition text_None : str := Eval compute in $"None".
 Definition text_null : str := Eval compute in $"null".
@@ -38,7 +40,7 @@ Definition crit_err_open : str := Eval compute in (lit "<h2>Error:</h2>" ++ [10%
 Definition crit_tb_open : str := Eval compute in
   ([10%N] ++ lit "</pre>" ++ [10%N] ++ lit "<h2>Traceback:</h2>" ++ [10%N] ++ lit "<pre>" ++ [10%N]).
 Definition crit_close : str := Eval compute in ([10%N] ++ lit "</pre>" ++ [10%N]).
-Definition crit_status : str := Eval compute in $"500 INTERNAL SERVER ERROR".
+Definition crit_status : str := Gen.critical_status_line.
 Definition crit_ctype : str := Eval compute in $"text/html; charset=UTF-8".
 Definition crit_default_path : str := Eval compute in $"/".
 (* template field names as error.html spells them *)
